@@ -33,6 +33,11 @@ def _(eng, ci, a, sp):
     return eng.world.exists(eng, a[0])
 
 
+@S('Path::is_file')
+def _(eng, ci, a, sp):
+    return eng.world.is_file(eng, a[0])
+
+
 @S('Path::is_dir')
 def _(eng, ci, a, sp):
     return eng.world.is_dir(eng, a[0])
